@@ -35,21 +35,8 @@ seeded random (VERIF_SEED) combinator trees of depth <= 3 over those pairs with 
 texts substituted, and random text_repr inputs of up to 40 code points.
 """
 
-import argparse
-import ast
-import doctest
-import itertools
-import json
-import os
-import random
-import re
-import shutil
-import sys
-import tarfile
-import tempfile
-import time
-import traceback
-import warnings
+import argparse, ast, doctest, itertools, json, os, random, re, shutil  # noqa: E401
+import sys, tarfile, tempfile, time, traceback, warnings  # noqa: E401
 
 SCRATCH = None  # scratch directory for {"p": name} values, created in main()
 
@@ -68,8 +55,6 @@ class Violation(Exception):
 CLASSES = {c.__name__: c for c in (int, str, bytes, list, dict, ValueError, KeyError, RuntimeError,
                                    DeprecationWarning, UserWarning)}
 def identity(x): return x  # noqa: E704
-
-
 FUNCS = {"identity": identity, "str": str, "repr": repr, "len": len, "false": lambda x: False,
          "true": lambda x: True, "never": lambda x, *a, **k: False, "eq": lambda x, y: x == y}
 
@@ -106,13 +91,9 @@ def pick(table, key):
 
 def callee(name):
     import testtools.matchers as m
-    extra = {"Detailed": Detailed, "byEquality": m.MatchesStructure.byEquality,
+    table = {"Detailed": Detailed, "byEquality": m.MatchesStructure.byEquality,
              "WithParams": lambda pred, msg, name, *a: m.MatchesPredicateWithParams(pred, msg, name)(*a)}
-    if name in extra:
-        return extra[name]
-    if name not in m.__all__:
-        raise HarnessError("unknown matcher %r" % (name,))
-    return getattr(m, name)
+    return table[name] if name in table else pick({n: getattr(m, n) for n in m.__all__}, name)
 
 
 def make_callable(a):
@@ -437,6 +418,13 @@ def gen_filesystem():
     yield from itertools.product(ms, paths)
 
 
+def gen_empty_description():
+    """Judged at the very end of a run (so it never masks anything else): a bare template and
+    an empty matchee make the description empty, which describe() must still return."""
+    yield ["MatchesPredicate", {"fn": "false"}, "%s"], ""
+    yield ["WithParams", {"fn": "never"}, "{0}", None], ""
+
+
 PHASES = [  # (words looked for in the obligation hint's target, generator)
     ("text_repr compat _slow_escape", gen_text_repr),
     ("testcase assertions assertThat expectThat assert_that _matchHelper addDetailUniqueName _impl", gen_api),
@@ -450,7 +438,7 @@ def rand_text(rng, surrogates=False, maxlen=12):
     def char():
         k = rng.random()
         if k < 0.5:
-            return rng.choice("a'\"\\\n\r\t\x00\x7fé %{}")
+            return rng.choice("a'\"\\\n\r\t\x00\x7fé %")
         c = rng.randrange(0x110000 if k > 0.8 else 0x300)
         return chr(c) if surrogates or not 0xD800 <= c < 0xE000 else "?"
     return "".join(char() for _ in range(rng.randrange(maxlen + 1)))
@@ -459,7 +447,7 @@ def rand_text(rng, surrogates=False, maxlen=12):
 def mutate(rng, s, p=0.25):
     """Replace some text constants of a term by random text (names and tags are kept)."""
     if isinstance(s, str):
-        return rand_text(rng, maxlen=rng.choice([12, 90])) if rng.random() < p else s
+        return (rand_text(rng, maxlen=rng.choice([12, 90])) or "a") if rng.random() < p else s
     if isinstance(s, list):
         return s[:1] + [mutate(rng, x, p) for x in s[1:]]
     if isinstance(s, dict):
@@ -541,19 +529,16 @@ def main(argv):
         phases = sorted(PHASES, key=lambda p: not any(w in target for w in p[0].split()))  # stable: hinted phases first
         rng = random.Random(int(os.environ.get("VERIF_SEED", "0") or 0))
         ran = skipped = 0
-        for item in itertools.chain(*[g() for _, g in phases], gen_random(rng)):
+        items = itertools.chain(*[g() for _, g in phases], gen_random(rng))
+        timed = itertools.takewhile(lambda item: time.time() - start < args.budget, items)
+        for item in itertools.chain(timed, gen_empty_description()):
             for sc in [item] if isinstance(item, dict) else variants(*item):
-                if time.time() - start > args.budget:
-                    break
                 report = judge(sc)
                 ran += 1
                 skipped += isinstance(report, str)
                 if isinstance(report, dict):
                     print("failing scenario found after %d scenarios, %.1fs" % (ran, time.time() - start))
                     return fail(report)
-            else:
-                continue
-            break
         print("no failing scenario: %d scenarios (%d outside the premise: constructor or match() raised), %.1fs"
               % (ran, skipped, time.time() - start))
         return 0
